@@ -7,6 +7,7 @@ package mq
 // by name and ignores the bodies.
 
 import (
+	"runtime"
 	"strconv"
 	"strings"
 )
@@ -115,13 +116,33 @@ func zzStrIntBefore(s, lit string) (int, bool) {
 }
 
 // Monitors exist only in the engine; natively they read as zero.
-func zzMarkShared()                {}
-func zzSharedWrites() int          { return 0 }
-func zzGlobalWrites() int          { return 0 }
-func zzAllocBytes() int            { return 0 }
-func zzSteps() int                 { return 0 }
-func zzSetBudget(steps, bytes int) {}
-func zzOrderMode(mode string)      {}
+func zzMarkShared()       {}
+func zzSharedWrites() int { return 0 }
+func zzGlobalWrites() int { return 0 }
+func zzAllocBytes() int   { return 0 }
+func zzSteps() int        { return 0 }
+func zzSetBudget(steps, bytes int) {
+	var ms runtime.MemStats
+	runtime.ReadMemStats(&ms)
+	zzBudgetBytes, zzBudgetBase = bytes, ms.TotalAlloc
+}
+
+var (
+	zzBudgetBytes int
+	zzBudgetBase  uint64
+)
+
+// zzBudgetCheck: natively the bytes allocated since zzSetBudget are compared
+// with eight times the budget (the engine's allocation meter is the precise
+// check; this is the native demonstration of an exhausted budget).
+func zzBudgetCheck() {
+	var ms runtime.MemStats
+	runtime.ReadMemStats(&ms)
+	if zzBudgetBytes > 0 && ms.TotalAlloc-zzBudgetBase > uint64(8*zzBudgetBytes) {
+		panic(zzStop{"assert", "allocation budget"})
+	}
+}
+func zzOrderMode(mode string) {}
 
 // zzNewProcess: the engine re-initialises the package-level variables with
 // the given map iteration order (another process); natively a no-op — the
